@@ -119,6 +119,89 @@ def subfnName (t : SubfnTable) (v : Nat) : String :=
     | some m => m.1
     | none => "Custom " ++ t.pretty
 
+/-! ### the sub-function parameter values ISO 14229-1 assigns (names as the library spells them)
+
+  A caller writes `ECUReset.ResetType.hardReset`, not `1`: the constants are part of how the arguments of a call are
+  given, and the name lookup must answer with the standard's name for the standard's value.  This table is transcribed
+  from the standard (tables 25, 34, 54, 74, 128, 171, 144, 378, 426/427, 270/271, 74 of the 2013 / 2020 editions),
+  independently of the code; `Tie/Names.lean` demands that the code defines every one of them with this value
+  (the code may define more). -/
+def isoSubfn : List SubfnTable := [
+  ⟨"DiagnosticSessionControl.Session", "", [
+    ("defaultSession", .exact 0x01), ("programmingSession", .exact 0x02), ("extendedDiagnosticSession", .exact 0x03),
+    ("safetySystemDiagnosticSession", .exact 0x04)]⟩,
+  ⟨"ECUReset.ResetType", "", [
+    ("hardReset", .exact 0x01), ("keyOffOnReset", .exact 0x02), ("softReset", .exact 0x03),
+    ("enableRapidPowerShutDown", .exact 0x04), ("disableRapidPowerShutDown", .exact 0x05)]⟩,
+  ⟨"CommunicationControl.ControlType", "", [
+    ("enableRxAndTx", .exact 0x00), ("enableRxAndDisableTx", .exact 0x01), ("disableRxAndEnableTx", .exact 0x02),
+    ("disableRxAndTx", .exact 0x03), ("enableRxAndDisableTxWithEnhancedAddressInformation", .exact 0x04),
+    ("enableRxAndTxWithEnhancedAddressInformation", .exact 0x05)]⟩,
+  ⟨"AccessTimingParameter.AccessType", "", [
+    ("readExtendedTimingParameterSet", .exact 0x01), ("setTimingParametersToDefaultValues", .exact 0x02),
+    ("readCurrentlyActiveTimingParameters", .exact 0x03), ("setTimingParametersToGivenValues", .exact 0x04)]⟩,
+  ⟨"ControlDTCSetting.SettingType", "", [
+    ("on", .exact 0x01), ("off", .exact 0x02), ("vehicleManufacturerSpecific", .range 0x40 0x5F),
+    ("systemSupplierSpecific", .range 0x60 0x7E)]⟩,
+  ⟨"LinkControl.ControlType", "", [
+    ("verifyBaudrateTransitionWithFixedBaudrate", .exact 0x01), ("verifyBaudrateTransitionWithSpecificBaudrate", .exact 0x02),
+    ("transitionBaudrate", .exact 0x03)]⟩,
+  ⟨"InputOutputControlByIdentifier.ControlParam", "", [
+    ("returnControlToECU", .exact 0x00), ("resetToDefault", .exact 0x01), ("freezeCurrentState", .exact 0x02),
+    ("shortTermAdjustment", .exact 0x03)]⟩,
+  ⟨"RoutineControl.ControlType", "", [
+    ("startRoutine", .exact 0x01), ("stopRoutine", .exact 0x02), ("requestRoutineResults", .exact 0x03)]⟩,
+  ⟨"DynamicallyDefineDataIdentifier.Subfunction", "", [
+    ("defineByIdentifier", .exact 0x01), ("defineByMemoryAddress", .exact 0x02),
+    ("clearDynamicallyDefinedDataIdentifier", .exact 0x03)]⟩,
+  ⟨"ReadDTCInformation.Subfunction", "", [
+    ("reportNumberOfDTCByStatusMask", .exact 0x01), ("reportDTCByStatusMask", .exact 0x02),
+    ("reportDTCSnapshotIdentification", .exact 0x03), ("reportDTCSnapshotRecordByDTCNumber", .exact 0x04),
+    ("reportDTCSnapshotRecordByRecordNumber", .exact 0x05), ("reportDTCExtendedDataRecordByDTCNumber", .exact 0x06),
+    ("reportNumberOfDTCBySeverityMaskRecord", .exact 0x07), ("reportDTCBySeverityMaskRecord", .exact 0x08),
+    ("reportSeverityInformationOfDTC", .exact 0x09), ("reportSupportedDTCs", .exact 0x0A),
+    ("reportFirstTestFailedDTC", .exact 0x0B), ("reportFirstConfirmedDTC", .exact 0x0C),
+    ("reportMostRecentTestFailedDTC", .exact 0x0D), ("reportMostRecentConfirmedDTC", .exact 0x0E),
+    ("reportMirrorMemoryDTCByStatusMask", .exact 0x0F), ("reportMirrorMemoryDTCExtendedDataRecordByDTCNumber", .exact 0x10),
+    ("reportNumberOfMirrorMemoryDTCByStatusMask", .exact 0x11), ("reportNumberOfEmissionsRelatedOBDDTCByStatusMask", .exact 0x12),
+    ("reportEmissionsRelatedOBDDTCByStatusMask", .exact 0x13), ("reportDTCFaultDetectionCounter", .exact 0x14),
+    ("reportDTCWithPermanentStatus", .exact 0x15), ("reportDTCExtDataRecordByRecordNumber", .exact 0x16),
+    ("reportUserDefMemoryDTCByStatusMask", .exact 0x17), ("reportUserDefMemoryDTCSnapshotRecordByDTCNumber", .exact 0x18),
+    ("reportUserDefMemoryDTCExtDataRecordByDTCNumber", .exact 0x19), ("reportSupportedDTCExtDataRecord", .exact 0x1A),
+    ("reportWWHOBDDTCByMaskRecord", .exact 0x42), ("reportWWHOBDDTCWithPermanentStatus", .exact 0x55),
+    ("reportDTCInformationByDTCReadinessGroupIdentifier", .exact 0x56)]⟩,
+  ⟨"RequestFileTransfer.ModeOfOperation", "", [
+    ("AddFile", .exact 0x01), ("DeleteFile", .exact 0x02), ("ReplaceFile", .exact 0x03), ("ReadFile", .exact 0x04),
+    ("ReadDir", .exact 0x05), ("ResumeFile", .exact 0x06)]⟩,
+  ⟨"Authentication.AuthenticationTask", "", [
+    ("deAuthenticate", .exact 0x00), ("verifyCertificateUnidirectional", .exact 0x01),
+    ("verifyCertificateBidirectional", .exact 0x02), ("proofOfOwnership", .exact 0x03),
+    ("transmitCertificate", .exact 0x04), ("requestChallengeForAuthentication", .exact 0x05),
+    ("verifyProofOfOwnershipUnidirectional", .exact 0x06), ("verifyProofOfOwnershipBidirectional", .exact 0x07),
+    ("authenticationConfiguration", .exact 0x08)]⟩ ]
+
+/-- the library's table `g` defines every constant of the ISO table with the ISO value (it may define more) -/
+def isoDefined (iso g : SubfnTable) : Bool := iso.members.all (fun m => g.members.contains m)
+
+/-- the lookup over the library's table `g` answers every ISO value (every value of an ISO range) with the ISO name -/
+def isoNamed (iso g : SubfnTable) : Bool :=
+  iso.members.all fun m =>
+    match m.2 with
+    | .exact v => subfnName g v == m.1
+    | .range lo hi => (List.range (hi + 1 - lo)).all fun i => subfnName g (lo + i) == m.1
+
+/-- every ISO table has its counterpart (same qualified class name) among the library's tables `gs` -/
+def isoTied (gs : List SubfnTable) : Bool :=
+  isoSubfn.all fun t =>
+    match gs.find? (fun g => g.cls == t.cls) with
+    | some g => isoDefined t g && isoNamed t g
+    | none => false
+
+/-- DTCFormatIdentifier values of ISO 14229-1 (2006 name and 2013 / 2020 name for 0x00), as the library spells them -/
+def isoDtcFormat : Consts := [
+  ("ISO15031_6", 0x00), ("SAE_J2012_DA_DTCFormat_00", 0x00), ("ISO14229_1", 0x01), ("SAE_J1939_73", 0x02),
+  ("ISO11992_4", 0x03), ("SAE_J2012_DA_DTCFormat_04", 0x04)]
+
 /-- names of all constants (of a name-sorted constant list) whose value is `c` -/
 def namesFor (t : Consts) (c : Nat) : List String := (t.filter (fun m => m.2 == c)).map (·.1)
 
